@@ -37,6 +37,12 @@ const F_PARTIAL: u8 = 4;
 /// pseudo flush value: the action is CompressorOxide::reset() - whatever stream was in progress is
 /// dropped (its output is discarded) and the rest of the input becomes a new stream
 const F_RESET: u8 = 100;
+/// pseudo flush values: set_compression_level_raw(0) / (1) between two calls. Level changes after
+/// the start are documented as risky in general; the exploration only makes them right after a
+/// completed Sync/Full flush (nothing buffered, nothing pending) and only *down* to the two
+/// match-free / one-probe levels.
+const F_SETLEVEL0: u8 = 120;
+const F_SETLEVEL1: u8 = 121;
 /// capacity sentinel: this one call goes through compress_to_output (callback sink) although the
 /// exploration's entry point is `compress` - the two public entry points mixed on one object
 const CAP_CALLBACK: u32 = u32::MAX - 2;
@@ -260,6 +266,12 @@ impl<'a> Model for CompModel<'a> {
 
     fn step(&self, s: &mut St, a: Act, path: &[Act]) -> bool {
         watchdog::pulse();
+        if a.flush == F_SETLEVEL0 || a.flush == F_SETLEVEL1 {
+            self.count("level_switches");
+            s.c.set_compression_level_raw(a.flush - F_SETLEVEL0);
+            s.calls += 1;
+            return true;
+        }
         if a.flush == F_RESET {
             self.count("resets");
             s.c.reset();
@@ -729,6 +741,49 @@ pub fn explore(rep: &Report, prop: &str, th: bool) -> Explored {
                                 }
                             }
                         }
+                    }
+                }
+                // level changes at flush boundaries: [first third, Full] [level 0] [200 bytes, Sync or Full]
+                // [level 1 or 0] [rest, Finish]; with the input followed by a copy of itself, so that the
+                // last part starts with the very bytes that sit at window offset 0
+                if e == 0 {
+                    let mut doubled = data.clone();
+                    doubled.extend_from_slice(b"--separator--");
+                    doubled.extend_from_slice(data);
+                    let m2 = CompModel { prop, input: &doubled, name: &medium[i].name, cfg: cfgs[c], entry: entries[e], rep: &rep, chunks: vec![], caps: vec![], flushes: vec![], cov: Mutex::new(BTreeMap::new()), ffi_every: 5 };
+                    let n1 = data.len() as u32;
+                    for &f1 in &[F_FULL, F_SYNC] {
+                        for &l1 in &[F_SETLEVEL0, F_SETLEVEL1] {
+                            for &f2 in &[F_SYNC, F_FULL] {
+                                for &l2 in &[F_SETLEVEL1, F_SETLEVEL0] {
+                                    let sched = [
+                                        Act { k: n1, cap: LARGE, flush: f1 },
+                                        Act { k: 0, cap: 0, flush: l1 },
+                                        Act { k: 13, cap: LARGE, flush: f2 },
+                                        Act { k: 0, cap: 0, flush: l2 },
+                                        Act { k: REST, cap: LARGE, flush: F_FINISH },
+                                    ];
+                                    let mut st = m2.init();
+                                    let mut path = vec![];
+                                    let mut alive = true;
+                                    for a in sched {
+                                        path.push(a);
+                                        acc.stats.transitions += 1;
+                                        if !m2.step(&mut st, a, &path) {
+                                            alive = false;
+                                            break;
+                                        }
+                                    }
+                                    if alive {
+                                        m2.complete(&mut st, &mut path);
+                                    }
+                                    acc.stats.executions += 1;
+                                }
+                            }
+                        }
+                    }
+                    for (k, v) in m2.cov.lock().unwrap().iter() {
+                        *acc.cov.entry(k).or_insert(0) += v;
                     }
                 }
                 // [any first call] [reset()] [rest under Finish]: a stream abandoned after one call of
